@@ -491,6 +491,9 @@ func load(T types.Type, addr *value) value {
 	if addr == nil {
 		panic(targetPanicMsg("runtime error: invalid memory address or nil pointer dereference"))
 	}
+	if u, ok := (*addr).(uninitGlobal); ok {
+		panic(pathAbort{"unsupported", "read of " + u.name + ": a variable of a package that is not a source root is never initialised (add its package to the obligation's roots)"})
+	}
 	switch T := T.Underlying().(type) {
 	case *types.Struct:
 		v, ok := (*addr).(structure)
